@@ -5,8 +5,10 @@ import em_common as E
 
 RULE = ("as C01 (references of 3-40 atoms; generic, partially collinear, collinear, grid geometries); the map is applied to a "
         "new conformation: every reference atom displaced independently (sigma 0.05-0.3 nm), or, for collinear references, a "
-        "new collinear conformation (anchors stay in the fallback branch at the call).  S additionally displaces each "
-        "reference atom in turn (locality).  A case is non-trivial when distinct.")
+        "new collinear conformation (anchors stay in the fallback branch at the call).  Each case is a call SEQUENCE on "
+        "one map object (fresh copies, the construction Molecule object itself, in-place deformations of it); the laws are "
+        "checked on every call against the conformation actually passed.  S additionally displaces each "
+        "reference atom in turn (locality), alternately on a copy and in place on the construction object.  A case is non-trivial when distinct.")
 
 TOL = 1e-9
 TOL_LOCAL = 1e-12
@@ -25,46 +27,69 @@ def deform(rs, spec):
     return refp
 
 
-def shape_failures(spec, refp, probes, rs_seed=0):
-    """the property text for one pair and one new conformation; probes = reference atoms to displace in turn"""
-    n = spec["n_ref"]
+def _call_failures(spec, nb, per, pos, out, label):
+    """radius and cluster clauses for one call: `out` is the result for the conformation `pos` actually passed"""
     ref, tgt, s = np.array(spec["ref"], dtype=float), np.array(spec["tgt"], dtype=float), float(spec["s"])
-    refp = np.array(refp, dtype=float)
-    bonds = [tuple(b) for b in spec["bonds"]]
-    if n < 3 or not E.anchors_of(n, bonds) or E.min_separation(ref) == 0.0 or E.min_separation(refp) == 0.0:
-        return []
-    r = E.run_impl(spec, refp)
-    if "err" in r:
-        return ["raised %s" % r["err"]]
-    out = r["out"]
     if not np.isfinite(out).all():
-        return ["non-finite result"]
-    nb = E.neighbours(n, bonds)
-    per = E.per_target_anchor(r["eq"], len(tgt), -1)
+        return ["%s: non-finite result" % label]
     bad = []
     for k in range(len(tgt)):
         a = per[k]
-        if a < 0 or len(nb[a]) < 2:
-            return ["target atom %d has no valid anchor (%s)" % (k, a)]
-        got, want = np.linalg.norm(out[k] - refp[a]), s * np.linalg.norm(tgt[k] - ref[a])
+        got, want = np.linalg.norm(out[k] - pos[a]), s * np.linalg.norm(tgt[k] - ref[a])
         if abs(got - want) > TOL:
-            bad.append("mapped atom %d: distance to its anchor %d is %.12g, s * construction distance is %.12g" % (k, a, got, want))
+            bad.append("%s: mapped atom %d: distance to its anchor %d is %.12g, s * construction distance is %.12g" % (
+                label, k, a, got, want))
     for j in range(len(tgt)):
         for k in range(j + 1, len(tgt)):
             if per[j] == per[k]:
                 got, want = np.linalg.norm(out[j] - out[k]), s * np.linalg.norm(tgt[j] - tgt[k])
                 if abs(got - want) > TOL:
-                    bad.append("mapped atoms %d,%d share anchor %d: distance %.12g, s * construction distance %.12g" % (
-                        j, k, per[j], got, want))
+                    bad.append("%s: mapped atoms %d,%d share anchor %d: distance %.12g, s * construction distance %.12g" % (
+                        label, j, k, per[j], got, want))
+    return bad
+
+
+def shape_failures(spec, steps, probes, rs_seed=0):
+    """The property text for one pair and a call sequence on ONE map object (fresh copies, the construction Molecule
+    object itself, in-place deformations of it): radius and cluster on EVERY call against the conformation actually
+    passed; then locality around the last conformation: the atoms in `probes` are displaced one at a time
+    (alternately on a fresh copy and in place on the construction object) and the same map is called again."""
+    n = spec["n_ref"]
+    ref, tgt = np.array(spec["ref"], dtype=float), np.array(spec["tgt"], dtype=float)
+    bonds = [tuple(b) for b in spec["bonds"]]
+    if n < 3 or not E.anchors_of(n, bonds) or E.min_separation(ref) == 0.0:
+        return []
+    if any("pos" in st and E.min_separation(st["pos"]) == 0.0 for st in steps):
+        return []
+    res = E.run_sequence(spec, steps)
+    if "err" in res:
+        return ["raised %s" % res["err"]]
+    nb = E.neighbours(n, bonds)
+    per = E.per_target_anchor(res["eq"], len(tgt), -1)
+    for k in range(len(tgt)):
+        if per[k] < 0 or len(nb[per[k]]) < 2:
+            return ["target atom %d has no valid anchor (%s)" % (k, per[k])]
+    bad = []
+    for i, c in enumerate(res["calls"]):
+        bad += _call_failures(spec, nb, per, c["pos"], c["out"], "call %d of the sequence (%s)" % (i, c["how"]))
+    if not np.array_equal(res["tgt_after"], tgt):
+        bad.append("the target molecule passed to the constructor was modified by the calls")
+    if bad or not probes:
+        return bad[:5]
     # locality: displace one reference atom at a time, call the same map again
     rs = np.random.RandomState(rs_seed)
-    m = r["map"]
+    m = res["map"]
     refmol = E.get_mol("R", n, spec["bonds"])
-    for j in probes:
+    refp, out = res["calls"][-1]["pos"], res["calls"][-1]["out"]
+    for idx, j in enumerate(probes):
         refq = refp.copy()
         refq[j] += rs.normal(size=3) * 0.2
-        arg = refmol.copy()
-        arg.atoms_positions = refq
+        if idx % 2:
+            refmol.atoms_positions = refq
+            arg, how = refmol, "in place on the construction object"
+        else:
+            arg, how = refmol.copy(), "on a fresh copy"
+            arg.atoms_positions = refq
         with np.errstate(all="ignore"):
             out2 = np.array(m(arg).atoms_positions, dtype=float)
         for k in range(len(tgt)):
@@ -73,9 +98,13 @@ def shape_failures(spec, refp, probes, rs_seed=0):
                 continue
             dev = np.abs(out2[k] - out[k]).max()
             if not dev <= TOL_LOCAL:
-                bad.append("mapped atom %d (anchor %d, frame neighbours %d,%d) moved by %.3g when reference atom %d was displaced" % (
-                    k, a, nb[a][0], nb[a][1], dev, j))
+                bad.append("mapped atom %d (anchor %d, frame neighbours %d,%d) moved by %.3g when reference atom %d was displaced %s" % (
+                    k, a, nb[a][0], nb[a][1], dev, j, how))
     return bad[:5]
+
+
+def gen_steps(rs, spec):
+    return E.make_steps(rs, spec, deform)
 
 
 def _probes(rs, n):
@@ -99,35 +128,67 @@ CORPUS = [
 ]
 
 
+def _single(refp):
+    return [{"how": "copy", "pos": np.array(refp, dtype=float).tolist()}]
+
+
+# witness of the seeded change C03-2 (frames not recomputed when the argument is the construction object): 5-chain,
+# 6-atom target; construction object, three deformed+moved copies, construction object again, in-place deformation
+_W_REF = np.array([[1.00, 1.00, 1.00], [1.15, 1.02, 0.97], [1.17, 1.16, 1.03], [1.02, 1.15, 1.06], [0.98, 1.27, 1.15]])
+_W_TGT = np.array([_W_REF[1] + [0.03, 0.02, -0.01], _W_REF[1] + [-0.02, 0.03, 0.02], _W_REF[2] + [0.01, -0.03, 0.03],
+                   _W_REF[3] + [-0.03, -0.01, -0.02], _W_REF[3] + [0.02, -0.03, 0.01], _W_REF[3] + [0.03, 0.01, -0.03]])
+
+
+def _witness_sequences():
+    rng = np.random.RandomState(99)
+    out = []
+    for sc in (1.0, 0.5, 1.3):
+        steps = [{"how": "object"}]
+        for _ in range(3):
+            steps.append({"how": "copy", "pos": (_W_REF + rng.uniform(-0.04, 0.04, _W_REF.shape) + rng.uniform(-2, 2, 3)).tolist()})
+        steps.append({"how": "object"})
+        steps.append({"how": "inplace", "pos": (_W_REF + rng.uniform(-0.04, 0.04, _W_REF.shape)).tolist()})
+        steps.append({"how": "object"})
+        out.append((_chain(_W_REF, _W_TGT.tolist(), sc, "generic"), steps))
+    return out
+
+
 def _shipped(ctx):
     """the shipped pairs with a deformed conformation of the coarse-grained molecule"""
     rs = ctx.np_rng("shipped")
     return [(sp, deform(rs, sp)) for sp in E.shipped_specs(ctx.n(40, 10 ** 6)) if sp["n_ref"] >= 3 and sp["s"] == 0.5]
 
 
+def _corpus_items(ctx):
+    items = [(spec, _single(refp)) for spec, refp in CORPUS + _shipped(ctx)]
+    items += [(spec, [{"how": "object"}] + _single(refp) + [{"how": "object"}, {"how": "inplace", "pos": np.array(refp, dtype=float).tolist()}])
+              for spec, refp in CORPUS]
+    items += _witness_sequences()
+    return items
+
+
 def corpus(ctx):
     S = ctx.cov["S"]
     S["corpus"] = 0
-    for spec, refp in CORPUS + _shipped(ctx):
+    for spec, steps in _corpus_items(ctx):
         probes = list(range(min(spec["n_ref"], 40)))
-        bad = shape_failures(spec, refp, probes)
+        bad = shape_failures(spec, steps, probes)
         S["corpus"] += 1
         if bad:
             ctx.violation("deformation: " + "; ".join(bad),
-                          {"kind": "c03", "spec": spec, "refp": np.array(refp).tolist(), "probes": probes}, key="shape")
+                          {"kind": "c03", "spec": spec, "steps": E.steps_json(steps), "probes": probes}, key="shape")
 
 
 def correspondence(ctx):
     rs = ctx.np_rng("K")
-    items = [(spec, refp, {"kind": "c03", "stream": "corpus"})
-             for spec, refp in CORPUS + _shipped(ctx)]
-    for i in range(ctx.n(330, 5000)):
+    items = [(spec, steps, {"kind": "c03", "stream": "corpus"}) for spec, steps in _corpus_items(ctx)]
+    for i in range(ctx.n(200, 3000)):
         spec = E.gen_spec(rs, E.GEOMS_GENERIC[i % len(E.GEOMS_GENERIC)])
-        items.append((spec, deform(rs, spec), {"kind": "c03", "stream": "generic"}))
-    for i in range(ctx.n(220, 3500)):
+        items.append((spec, gen_steps(rs, spec), {"kind": "c03", "stream": "generic"}))
+    for i in range(ctx.n(130, 2000)):
         spec = E.gen_spec(rs, E.GEOMS_DYADIC[i % len(E.GEOMS_DYADIC)])
-        items.append((spec, deform(rs, spec), {"kind": "c03", "stream": "dyadic"}))
-    return E.run_K(ctx, items, lambda d: shape_failures(d["spec"], d["refp"], _probes(np.random.RandomState(0), d["spec"]["n_ref"])))
+        items.append((spec, gen_steps(rs, spec), {"kind": "c03", "stream": "dyadic"}))
+    return E.run_K(ctx, items, lambda d: shape_failures(d["spec"], d["steps"], _probes(np.random.RandomState(0), d["spec"]["n_ref"])))
 
 
 def oracle(ctx, scale):
@@ -137,23 +198,28 @@ def oracle(ctx, scale):
     geoms = ["generic", "generic", "generic", "partial", "collinear_decimal", "collinear_axis", "collinear_diag",
              "collinear_int", "grid"]
     fails = 0
-    hist = {}
-    nprobe = 0
+    hist, pats = {}, {}
+    nprobe = ncalls = 0
     for i in range(n):
         spec = E.gen_spec(rs, geoms[i % len(geoms)])
-        refp = deform(rs, spec)
+        steps = gen_steps(rs, spec)
         probes = _probes(rs, spec["n_ref"])
         nprobe += len(probes)
-        bad = shape_failures(spec, refp, probes, rs_seed=i)
+        ncalls += len(steps)
+        bad = shape_failures(spec, steps, probes, rs_seed=i)
         hist[spec["geom"]] = hist.get(spec["geom"], 0) + 1
-        ctx.count(("S", spec["bonds"], spec["ref"], spec["tgt"], spec["s"], refp.tolist()))
+        pk = ",".join(st["how"] for st in steps)
+        pats[pk] = pats.get(pk, 0) + 1
+        ctx.count(("S", spec["bonds"], spec["ref"], spec["tgt"], spec["s"], E.steps_json(steps)))
         if bad:
             fails += 1
             ctx.violation("deformation: " + "; ".join(bad),
-                          {"kind": "c03", "spec": spec, "refp": refp.tolist(), "probes": probes, "rs_seed": i}, key="shape")
-    S["deformation_cases_x%d" % scale] = n
+                          {"kind": "c03", "spec": spec, "steps": E.steps_json(steps), "probes": probes, "rs_seed": i}, key="shape")
+    S["deformation_sequences_x%d" % scale] = n
+    S["calls_x%d" % scale] = ncalls
     S["locality_probes_x%d" % scale] = nprobe
     S["input_distribution"] = hist
+    S["sequence_patterns"] = pats
     S["failures"] = S.get("failures", 0) + fails
 
 
@@ -163,7 +229,8 @@ def replay(ctx, obj):
         print("replay names a proof/correspondence, not an input:", r)
         return False
     probes = r.get("probes", list(range(r["spec"]["n_ref"])))
-    bad = shape_failures(r["spec"], r["refp"], probes, rs_seed=r.get("rs_seed", 0))
+    steps = r["steps"] if "steps" in r else _single(r["refp"])
+    bad = shape_failures(r["spec"], steps, probes, rs_seed=r.get("rs_seed", 0))
     print(bad)
     return not bad
 
